@@ -117,19 +117,6 @@ func c15Row(c *c15Case) (req, impl, verdict string) {
 	if verdict == "" {
 		verdict = c15Verdict(c.steps, c.in, status, out)
 	}
-	if strings.Contains(verdict, "explained-by=fields_set_default/ambiguous-keys") {
-		// replay the order dependence on the real code: distinct results over repeated runs
-		seen := map[string]bool{impl: true}
-		for i := 0; i < 64; i++ {
-			s2, o2, _ := c15Run(c)
-			k := s2
-			if s2 == "ok" {
-				k = "ok " + virSchemas(o2)
-			}
-			seen[k] = true
-		}
-		verdict += fmt.Sprintf(" distinct-results-over-65-runs=%d", len(seen))
-	}
 	return req, impl, verdict
 }
 
